@@ -128,6 +128,7 @@ type c13Opt struct {
 	restart        bool // S9: the Server value has been through a complete start / Shutdown cycle before the scenario proper
 	both           bool // S8: the Server holds a PacketConn and a Listener
 	handlerCloses  bool // S7: the handler closes the connection through ResponseWriter.Close after (or instead of) its reply
+	maxQueries     int  // Server.MaxTCPQueries (0: the default; -1: no limit — another arm of the per-connection loop condition)
 	hijack         bool // S10: the handler takes the connection over (ResponseWriter.Hijack) after its reply; it is no longer the server's
 }
 
@@ -226,6 +227,7 @@ func c13Scenario(name string, o c13Opt) *e2x.Scenario {
 			if o.badReader {
 				srv.DecorateReader = func(r dns.Reader) dns.Reader { return plainReader{r} }
 			}
+			srv.MaxTCPQueries = o.maxQueries
 			srv.Handler = dns.HandlerFunc(func(w dns.ResponseWriter, q *dns.Msg) {
 				vsched.Logf("enter %d", q.Id)
 				if o.blockHandler {
@@ -583,6 +585,9 @@ func c13Spaces(c *fw.Ctx) {
 		{"S5/pc/reader-without-ReadPacketConn", c13Opt{transport: "pc", badReader: true}, 100, 100},
 		{"S3/tcp/silent-client+second-start", c13Opt{transport: "tcp", clients: []string{"silent"}, secondStart: true}, 1, 2},
 		{"S3/pc/1-client+second-start", c13Opt{transport: "pc", clients: []string{"full"}, secondStart: true}, 1, 2},
+		{"S12/tcp/silent-client/unlimited-queries", c13Opt{transport: "tcp", clients: []string{"silent"}, maxQueries: -1}, 2, 3},
+		{"S12/tcp/1-client/unlimited-queries", c13Opt{transport: "tcp", clients: []string{"full"}, maxQueries: -1}, 1, 2},
+		{"S12/tcp/1-client/one-query-per-connection", c13Opt{transport: "tcp", clients: []string{"full"}, maxQueries: 1}, 1, 2},
 		{"S11/tcp/in-flight+ctx+second-start", c13Opt{transport: "tcp", clients: []string{"full"}, blockHandler: true, secondStart: true}, 0, 1},
 		{"S11/pc/in-flight+ctx+second-start", c13Opt{transport: "pc", clients: []string{"full"}, blockHandler: true, secondStart: true}, 0, 1},
 		{"S3/tcp/double-start-double-shutdown", c13Opt{transport: "tcp", secondStart: true, secondShutdown: true}, 2, 3},
